@@ -24,6 +24,12 @@ WITNESS2 = ["reset", "meta 1 []", "rmeta 0 0 1 1", "head 0 1 0 [8.1]", "meta 2 [
 WITNESS = ["reset", "meta 0 [1~p1,2~p2]", "meta 1 [5~p3]", "meta 2 [5~p4]", "meta 3 []", "meta 4 []",
            "pmeta 1 1", "pmeta 2 2", "pmeta 3 3", "pmeta 4 4", "new []", "names", "reload"]
 
+# Three different sources declared under ONE dependency name (root: n5 → p3; p1: n5 → p4; p2: n5 → p5):
+# the lock names must be n5, n5_0, n5_1 (in some order) — replayed on every run with the `names` oracle.
+WITNESS3 = ["reset", "meta 0 [1~p1,2~p2,5~p3]", "meta 1 [5~p4]", "meta 2 [5~p5]", "meta 3 []", "meta 4 []", "meta 5 [5~p6]",
+            "meta 6 []", "pmeta 1 1", "pmeta 2 2", "pmeta 3 3", "pmeta 4 4", "pmeta 5 5", "pmeta 6 6", "new []", "names",
+            "reload", "update 0 []", "unmodified", "names"]
+
 
 def parse_table(reply):
     """`ok [mod=b] U0=lock/lock;P1=lock` → list of (name, src, deps, vis)."""
@@ -118,10 +124,12 @@ def replay(ctx, lines, tag):
 WORLD = ("meta", "head", "rmeta", "pmeta", "reset")
 
 
-def shrink(ctx, seq):
-    """Drop trailing requests, then single resolution requests (world lines are kept)."""
+def shrink(ctx, seq, want_oracle):
+    """Drop trailing requests, then single resolution requests (world lines are kept). With
+    `want_oracle` a candidate counts only if the property oracle still fails on it."""
     def fails(c):
-        return bool(replay(ctx, c, "shrink")[1])
+        mm = replay(ctx, c, "shrink")[1]
+        return any(x["kind"] == "impl!=oracle" for x in mm) if want_oracle else bool(mm)
     best = seq
     for cut in range(len(seq)):
         if seq[cut].split(" ")[0] in WORLD:
@@ -157,7 +165,7 @@ def run(ctx):
     if not harness_build(ctx):
         return
     shards = tier_n(ctx, 6, 16)
-    per = tier_n(ctx, 1, 40)
+    per = tier_n(ctx, 2, 40)
     total = 0
     reported = 0
     with concurrent.futures.ThreadPoolExecutor(max_workers=min(shards, 8)) as ex:
@@ -201,15 +209,26 @@ def run(ctx):
                 unmodified_finding(ctx, ops, imp, m["i"], ["reset"] + seq)
                 continue
             reported += 1
+            # the whole scenario (it continues after the first mismatch): a property failure
+            # (impl != oracle) anywhere in it is preferred to a bare correspondence failure
+            j = m["i"]
+            while j + 1 < len(ops) and ops[j + 1] != "reset":
+                j += 1
+            full = ["reset"] + enclosing_sequence(ops, j)
             seq = ["reset"] + seq
             small = seq
             try:
-                if replay(ctx, seq, "shrink")[1]:
-                    small = shrink(ctx, seq)
+                mfull = replay(ctx, full, "shrink")[1]
+                want_oracle = any(x["kind"] == "impl!=oracle" for x in mfull)
+                if want_oracle:
+                    seq = small = full
+                if mfull:
+                    small = shrink(ctx, seq, want_oracle)
             except Exception as e:
                 ctx.log(f"shrink failed: {e}")
             _, mm = replay(ctx, small, "final")
-            first = (mm or [m])[0]
+            mm = sorted(mm or [m], key=lambda x: 0 if x["kind"] == "impl!=oracle" else 1)
+            first = mm[0]
             body = {"kind": first["kind"], "domain": "resolve", "ops": small, "first_difference": first, "seed": ctx.seed,
                     "replay": f"{HX} resolve --replay <file with the ops> --out DIR ; {VMODEL} resolve < DIR/ops.txt"}
             if first["kind"] == "impl!=oracle":
@@ -236,6 +255,24 @@ def run(ctx):
                 ctx.violation(f"resolve witness2: {m['kind']} at `{m['op']}`: impl={m['impl']} model={m['model']} oracle={m['oracle']}",
                               {"kind": m["kind"], "ops": WITNESS2, "first_difference": m}, no_input=m["kind"] != "impl!=oracle",
                               kind=m["kind"])
+    # ---- three and four sources under one dependency name (fixed witness; `names` oracle on the real table) ----
+    d3, mism3 = replay(ctx, WITNESS3, "witness3")
+    if d3 is None:
+        ctx.violation("resolve witness3 replay crashed", {"kind": "harness-crash", "log": mism3[0]["impl"]}, no_input=True,
+                      kind="model!=impl")
+    else:
+        ops3, imp3 = read_lines(f"{d3}/ops.txt") or [], read_lines(f"{d3}/impl.txt") or []
+        ctx.cov["evaluations"] += len(ops3)
+        t3 = parse_table(next((r for o, r in zip(ops3, imp3) if o.startswith("new ")), "")) or []
+        ctx.cov["same_name_witness"] = sorted(n for n, _, _, _ in t3 if n.split("_")[0] == "5")
+        if len({n for n, _, _, _ in t3 if n.split("_")[0] == "5"}) != 4 and not mism3:
+            ctx.violation(f"resolve witness3: four sources declared as n5 did not get four names: {ctx.cov['same_name_witness']}",
+                          {"kind": "impl!=oracle", "ops": WITNESS3, "table": t3}, kind="impl!=oracle")
+        for m in mism3[:2]:
+            ctx.violation(f"resolve witness3: {m['kind']} at `{m['op']}`: impl={m['impl']} model={m['model']} oracle={m['oracle']}",
+                          {"kind": m["kind"], "domain": "resolve", "ops": WITNESS3, "first_difference": m,
+                           "replay": f"{HX} resolve --replay <file with the ops> --out DIR"}, no_input=m["kind"] != "impl!=oracle",
+                          kind=m["kind"])
     # ---- finding #11: the same declarations resolved in several processes (hash seeds differ) ----
     nproc = tier_n(ctx, 6, 24)
     with concurrent.futures.ThreadPoolExecutor(max_workers=6) as ex:
